@@ -47,11 +47,21 @@ func c14genPlan(rt *rapid.T) c14plan {
 		p.LateAt = append(p.LateAt, rapid.IntRange(0, n-1).Draw(rt, fmt.Sprintf("lateAt%d", i)))
 	}
 	id := uint32(1000)
+	usedOdd := map[[2]uint32]bool{}
 	for i := 0; i < n; i++ {
 		id++
 		c := rapid.IntRange(0, p.NClients-1).Draw(rt, fmt.Sprintf("c%d", i))
 		k := rapid.SampledFrom([]string{"getmsgs", "getmsgs", "biglist", "pm-victim", "pm-victim", "broadcast", "newsget", "newslist", "userlist", "keepalive", "chat", "postboard", "clientinfo", "clientinfo", "invite", "fileinfo", "acct-stale-rename", "acct-create", "acct-create", "acct-delete", "invite-to-chat", "invite-to-chat", "chat-subject", "unknown-chat", "unknown-chat", "kick-unknown"}).Draw(rt, fmt.Sprintf("k%d", i))
 		t := hlref.Tran{ID: id}
+		// a client may number its requests as it likes: now and then one carries 0, the largest id or one with the top bit
+		// set (each at most once per client, so that replies stay attributable)
+		if rapid.IntRange(0, 7).Draw(rt, fmt.Sprintf("oddid%d", i)) == 0 {
+			odd := rapid.SampledFrom([]uint32{0, 0, 0xFFFFFFFF, 0x80000000}).Draw(rt, fmt.Sprintf("oddidv%d", i))
+			if key := [2]uint32{uint32(c), odd}; !usedOdd[key] {
+				usedOdd[key] = true
+				t.ID = odd
+			}
+		}
 		big := func(label string) []byte {
 			return bytes.Repeat([]byte{byte('A' + i%26)}, rapid.SampledFrom([]int{100, 33000, 40000, 60000}).Draw(rt, label))
 		}
